@@ -96,3 +96,83 @@ theorem find_of_mem (children : List BNode) (col : Col)
       · intro x hx; exact huniq x (by simp [hx])
 
 end TableauVerif.Props.C09
+
+namespace TableauVerif.Props.C09
+open TableauVerif TableauVerif.Val TableauVerif.Model.TableParser TableauVerif.Model.XmlDoc
+open TableauVerif.Model.DocParser (findChild wrapNode BNode.children BNode.value BNode.name foldNodes)
+open TableauVerif.Props.C01 TableauVerif.Spec.C01
+
+/-! ### a repeated element: the list of structs -/
+
+/-- one element of the list as the document holds it: a node with (at least) the scalar children of `cols` -/
+structure ElemDoc where
+  node : BNode
+  cols : List Col
+
+/-- the element node exposes its columns (any order, any further children) and its values are canonical -/
+def ElemDoc.WF (e : ElemDoc) (schema : List (Nat × Str × SKind)) : Prop :=
+  e.cols.map (fun c => (c.num, c.name, c.kind)) = schema ∧
+  (e.cols.map (·.num)).Pairwise (· < ·) ∧
+  (∀ col ∈ e.cols, findChild (BNode.children e.node) col.name = some (colNode col)) ∧
+  (∀ col ∈ e.cols, ∀ v, col.val = some v → wfScalar col.kind v = true)
+
+/-- what the elements state: one message per element that has a populated value, in document order -/
+def statedList : List ElemDoc → List Val
+  | [] => []
+  | e :: rest => if e.cols.any (·.val.isSome) then .msg (stated e.cols) :: statedList rest else statedList rest
+
+theorem fields_of_schema (schema : List (Nat × Str × SKind)) (cols : List Col)
+    (h : cols.map (fun c => (c.num, c.name, c.kind)) = schema) :
+    cols.map Col.field = schema.map (fun s => flatField s.1 s.2.1 s.2.2) := by
+  rw [← h, List.map_map]; rfl
+
+/-- the per-element step of the list loop in `parseListField` (struct elements) -/
+def elemStep (c : Ctx) (sub : List TField) (elemNode : BNode) (l : List Val) : Model.TableParser.M (List Val) :=
+  wrapNode elemNode (do
+    let (em, p) ← Model.DocParser.parseFields c sub [] elemNode
+    pure (if p then l ++ [.msg em] else l))
+
+theorem fold_elems (c : Ctx) (schema : List (Nat × Str × SKind)) :
+    ∀ (es : List ElemDoc) (acc : List Val), (∀ e ∈ es, e.WF schema) →
+      foldNodes (elemStep c (schema.map (fun s => flatField s.1 s.2.1 s.2.2))) (es.map (·.node)) acc
+        = .ok (acc ++ statedList es) := by
+  intro es
+  induction es with
+  | nil => intro acc _; simp [foldNodes, statedList]
+  | cons e rest ih =>
+    intro acc hw
+    obtain ⟨hs, hsorted, hfind, hvals⟩ := hw e (by simp)
+    have hstep : elemStep c (schema.map (fun s => flatField s.1 s.2.1 s.2.2)) e.node acc
+        = .ok (if e.cols.any (·.val.isSome) then acc ++ [.msg (stated e.cols)] else acc) := by
+      cases hn : e.node with
+      | mk k nn nv ch =>
+        have hfind' : ∀ col ∈ e.cols, findChild ch col.name = some (colNode col) := by
+          intro col hc; have := hfind col hc; simpa [hn, BNode.children] using this
+        have hflat := C09_doc_flat_scalars_partial c k nn nv ch e.cols [] hsorted (by simp) hfind' hvals
+        rw [fields_of_schema schema e.cols hs] at hflat
+        simp [elemStep, hflat, wrapNode, wrapCol, bind, Except.bind, pure, Except.pure]
+    rw [List.map_cons, foldNodes, hstep]
+    simp only []
+    rw [ih _ (fun x hx => hw x (by simp [hx]))]
+    simp only [statedList]
+    split <;> simp [List.append_assoc]
+
+/-- **C09_doc_struct_list_partial**: a list node whose children are element nodes with scalar children: the
+document parser appends one message per (non-empty) element, each holding exactly what the element states, in
+document order — nothing lost, merged, duplicated or reordered, for any number of elements. -/
+theorem C09_doc_struct_list_partial (c : Ctx) (num : Nat) (name protoName : Str) (schema : List (Nat × Str × SKind))
+    (elems : List ElemDoc) (hwf : ∀ e ∈ elems, e.WF schema) (nodeName nodeValue : Str) (m : Msg) :
+    Model.DocParser.parseField c
+        (.mk num name [] .list .dflt false none none (schema.map (fun s => flatField s.1 s.2.1 s.2.2)) {} [] [] [] protoName) m
+        (.mk .list nodeName nodeValue (elems.map (·.node)))
+      = .ok (setList m num (getList m num ++ statedList elems),
+             has (setList m num (getList m num ++ statedList elems)) num) := by
+  have hk : (NKind.list == NKind.scalar) = false := by decide
+  have hl : (Layout.dflt == Layout.incell) = false := by decide
+  have hfold := fold_elems c schema elems (getList m num) hwf
+  unfold elemStep at hfold
+  simp only [Model.DocParser.parseField, Model.DocParser.BNode.kind, Model.DocParser.BNode.children, hl, hk,
+    Bool.or_self, Bool.false_eq_true, if_false]
+  rw [hfold]
+
+end TableauVerif.Props.C09
